@@ -217,6 +217,39 @@ class Explorer:
         self.inline_depth = inline_depth
 
     # ---------------------------------------------------------------- eval
+    def _route_exc(self, node, exc_name):
+        """where an exception of class `exc_name` raised by `node` goes: the exception successors of the node are ordered from the
+        innermost try outward; a clause that catches the class (class hierarchy of the builtins and of the repository) ends the
+        search, one that cannot catch it is skipped, one the analysis cannot judge is taken *and* the search goes on"""
+        out = []
+        q = exc_name if "." in exc_name or self.repo.has_cls(exc_name) else exc_name
+        for b, l in node.out:
+            if l != "exc":
+                continue
+            if b.kind != "handler":
+                out.append(b)
+                break
+            if b.ast.type is None:
+                out.append(b)
+                break
+            elts = b.ast.type.elts if isinstance(b.ast.type, ast.Tuple) else [b.ast.type]
+            verdict = "no"
+            for t in elts:
+                tq = self.repo.resolve(self.func.module, self.func, t) or ast.unparse(t)
+                from .index import builtin_exc as _bx
+                known = (self.repo.has_cls(tq) or _bx(tq) is not None) and (self.repo.has_cls(q) or _bx(q) is not None)
+                if self.repo.is_subclass(q, tq):
+                    verdict = "yes"
+                    break
+                if not known:
+                    verdict = "maybe"
+            if verdict == "no":
+                continue
+            out.append(b)
+            if verdict == "yes":
+                break
+        return out
+
     def key_of(self, e):
         k = self.atom_of(e)
         if k is not None:
@@ -573,6 +606,16 @@ class Explorer:
                         except Exception:
                             return UNKNOWN
                     return UNKNOWN
+            if isinstance(e.func, ast.Name) and e.func.id == "map" and len(e.args) == 2 and not e.keywords and e.func.id not in self.func.locals \
+                    and isinstance(e.args[0], ast.Name) and e.args[0].id in ("str", "int", "len", "repr", "bool", "ord", "chr", "abs") and e.args[0].id not in self.func.locals:
+                # map(<pure builtin>, known sequence)
+                seq0 = self.ev(e.args[1], env)
+                if isinstance(seq0, (tuple, list, str, bytes)) and not any(x is UNKNOWN for x in seq0):
+                    try:
+                        return tuple(map({"str": str, "int": int, "len": len, "repr": repr, "bool": bool, "ord": ord, "chr": chr, "abs": abs}[e.args[0].id], seq0))
+                    except Exception:
+                        return UNKNOWN
+                return UNKNOWN
             if isinstance(e.func, ast.Name) and e.func.id == "enumerate" and 1 <= len(e.args) <= 2 and not e.keywords:
                 seq0 = self.ev(e.args[0], env)
                 st0 = self.ev(e.args[1], env) if len(e.args) == 2 else 0
@@ -900,6 +943,32 @@ class Explorer:
                 new[tk] = l.pop(idx)
                 new[k] = tuple(l)
                 return new
+        if isinstance(st, ast.Assign) and len(st.targets) == 1 and isinstance(st.targets[0], ast.Name) and isinstance(st.value, ast.Call) \
+                and isinstance(st.value.func, ast.Attribute) and st.value.func.attr == "pop" and not st.value.keywords and 1 <= len(st.value.args) <= 2:
+            # `x = d.pop(key[, default])` on a tracked dict
+            c = st.value
+            k = self.key_of(c.func.value)
+            tk = self.key_of(st.targets[0])
+            if k is not None and k not in self.frozen and k in env and isinstance(env[k], dict) and tk is not None:
+                args = [self.ev(a, env) for a in c.args]
+                new = dict(env)
+                if args[0] is UNKNOWN or isinstance(args[0], _Refined):
+                    new[k] = UNKNOWN
+                    new[tk] = UNKNOWN
+                    return new
+                d = dict(env[k])
+                try:
+                    if args[0] in d:
+                        new[tk] = d.pop(args[0])
+                        new[k] = d
+                    elif len(args) == 2:
+                        new[tk] = args[1]
+                    else:
+                        new["__raise__"] = "KeyError"
+                except TypeError:
+                    new[k] = UNKNOWN
+                    new[tk] = UNKNOWN
+                return new
         if isinstance(st, ast.Assign) and len(st.targets) == 1 and isinstance(st.targets[0], ast.Subscript):
             # item store into a tracked dict: `kwargs["type"] = v`
             t = st.targets[0]
@@ -977,6 +1046,9 @@ class Explorer:
                     new[k] = UNKNOWN if m in MUTATORS else env[k]
                 elif m == "pop" and args and args[0] is not UNKNOWN:
                     try:
+                        if len(args) == 1 and args[0] not in d:
+                            new["__raise__"] = "KeyError"
+                            return new
                         d.pop(args[0], None)
                         new[k] = d
                     except TypeError:
@@ -1206,9 +1278,7 @@ class Explorer:
                 # the statement raises for this valuation (e.g. pop from an empty sequence): only its exception edges
                 env2 = dict(env2)
                 exc_name = env2.pop("__raise__")
-                targets = [b for b, l in node.out if l == "exc"]
-                hs = [b for b in targets if b.kind == "handler" and (b.ast.type is None or exc_name in ast.unparse(b.ast.type) or any(x in ast.unparse(b.ast.type) for x in ("LookupError", "Exception", "BaseException")))]
-                for b in (hs[:1] or targets):
+                for b in self._route_exc(node, exc_name):
                     stack.append((b, env2, events, path, None))
                 continue
             for b, l in node.out:
